@@ -41,7 +41,28 @@ Theorem C14_timely_untouched_partial :
     n_kills (snd (run_sm c script)) = 0 /\ s_timer (fst (run_sm c script)) <> TArmed.
 Proof. exact timely_untouched_partial. Qed.
 
-(** Timeout source: the run() keyword if given, else the configured value (finite in shape) *)
+(** Tie to the source text: [Runner.timed_out] is "a timer exists and its thread
+    is no longer alive" -- what [RunnerSM.decide] tests ([c_timeout] and the timer
+    not [TArmed]), whenever the expiry happened (F-C14a); and the tail of
+    [_finish] tests it after the thread/watcher errors and before the exit code. *)
+From InvokeVerif Require Generated.Tables.
+Theorem C14_timed_out_matches_source :
+  match Generated.Tables.timed_out_src with
+  | Some e => e = "bool(self._timer and (not self._timer.is_alive()))"%string
+  | None => True
+  end /\
+  match Generated.Tables.finish_tail_src with
+  | Some l => nth_error l 4 = Some ("timeout is not None and self.timed_out", "CommandTimedOut")%string /\
+              nth_error l 0 = Some ("thread_exceptions", "ThreadException")%string /\
+              nth_error l 2 = Some ("watcher_errors", "Failure")%string /\
+              nth_error l 5 = Some ("not (result or self.opts['warn'])", "UnexpectedExit")%string
+  | None => True
+  end.
+Proof. vm_compute. repeat split; first [reflexivity | exact I]. Qed.
+
+(** Timeout source: the run() keyword if given, else the configured value
+    (definitional: [effective_timeout] is that rule; the tie to the code is the
+    observed Timer interval in the correspondence) *)
 Theorem C14_timeout_source :
   forall kwarg config, timeout_ok kwarg config (effective_timeout kwarg config) = true.
 Proof. exact timeout_source. Qed.
@@ -87,6 +108,23 @@ Proof. exact timely_general. Qed.
 Theorem C14_run_meets_spec_partial :
   forall c script, guard14 c script = true -> C14Spec.spec_ok c script (observe (run_sm c script)) = true.
 Proof. exact run_meets_spec14. Qed.
+
+(** The F-C14a region narrowed to where the defect really is: the timer fires
+    after the exit and BEFORE the last reader's EOF.  A timer that expires once
+    the process has exited and every reader has had its EOF is harmless ... *)
+Theorem C14_timer_after_done_harmless :
+  forall c pre post,
+    start_raises c = false -> has_exc (pre ++ post) = false -> has_kbd (pre ++ post) = false ->
+    no_timer pre = true -> done_prefix (c_pty c) false false false (pre ++ post) = Some (pre, post) ->
+    exists code, exit_code (pre ++ post) = Some code /\
+      s_pc (fst (run_sm c (pre ++ post))) = PDone (normal_outcome c code) /\
+      n_kills (snd (run_sm c (pre ++ post))) = 0 /\ s_timer (fst (run_sm c (pre ++ post))) <> TArmed.
+Proof. exact timer_after_done_harmless. Qed.
+
+(** ... so the flagship holds under the narrower guard too. *)
+Theorem C14_run_meets_spec_narrow_partial :
+  forall c script, guard14_narrow c script = true -> C14Spec.spec_ok c script (observe (run_sm c script)) = true.
+Proof. exact run_meets_spec14_narrow. Qed.
 
 (** The same flagship statement as a finite sweep (a TEST, not the property): 128
     configurations x 2801 scripts of at most 4 events over a 7-event alphabet;
